@@ -684,3 +684,103 @@ Proof.
   rewrite (opts_loop_read os wb pre post (S rdl) [] HW OK) by lia. cbn [bind rev app].
   rewrite A. reflexivity.
 Qed.
+
+(* ---------- the whole rendering ---------- *)
+Definition tsig_fs : list fld := [FNameA; FFix 8; FCnt16; FFix 2; FMax16 4095; FCnt16].
+
+Record WfMsg (m : msg) : Prop := mkWf {
+  wf_notupdate : (opcode_from_flags (mflags m) =? 5) = false;
+  wf_q : Forall (fun rs => name_ok (rname rs)) (mq m);
+  wf_an : Forall wf_rrset (man m);
+  wf_au : Forall wf_rrset (mau m);
+  wf_ad : Forall wf_rrset (mad m);
+  wf_keys_an : keys_fresh [] (man m);
+  wf_keys_au : keys_fresh [] (mau m);
+  wf_keys_ad : keys_fresh [] (mad m);
+  wf_opt : match mopt m with Some o => opts_ok (oopts o) | None => True end }.
+
+Definition hdr_bytes (id flags c0 c1 c2 c3 : Z) : list Z :=
+  MessageM.u16 id ++ MessageM.u16 flags ++ MessageM.u16 c0 ++ MessageM.u16 c1 ++ MessageM.u16 c2 ++ MessageM.u16 c3.
+
+Lemma write_header_full id r r' :
+  write_header id r = Ok r' ->
+  r' = set_out r (hdr_bytes id (rflags r) (cq r) (can r) (cau r) (cad r) ++ skipn 12 (out r)) (tbl r) /\
+  0 <= id <= 65535 /\ 0 <= rflags r <= 65535 /\ 0 <= cq r <= 65535 /\ 0 <= can r <= 65535 /\
+  0 <= cau r <= 65535 /\ 0 <= cad r <= 65535.
+Proof.
+  intros H. unfold write_header in H.
+  apply bind_ok in H. destruct H as (a & Ea & H). apply bind_ok in H. destruct H as (b & Eb & H).
+  apply bind_ok in H. destruct H as (c0 & E0 & H). apply bind_ok in H. destruct H as (c1 & E1 & H).
+  apply bind_ok in H. destruct H as (c2 & E2 & H). apply bind_ok in H. destruct H as (c3 & E3 & H).
+  apply pack16_ok in Ea, Eb, E0, E1, E2, E3.
+  destruct Ea as (-> & ?). destruct Eb as (-> & ?). destruct E0 as (-> & ?). destruct E1 as (-> & ?).
+  destruct E2 as (-> & ?). destruct E3 as (-> & ?).
+  split; [|repeat split; lia]. injection H as <-. unfold hdr_bytes. rewrite <- !app_assoc. reflexivity.
+Qed.
+
+Lemma SecDesc_ordinary : forall l ds, SecDesc l ds -> Forall wf_rrset l -> Forall ordinary ds.
+Proof.
+  induction 1 as [|rs l ds1 ds2 F2 SD IH]; intros WF; [constructor|].
+  inversion WF as [|? ? W1 WF']; subst. apply Forall_app. split; [|apply IH; exact WF'].
+  destruct W1 as (_ & _ & _ & T1 & T2 & TTL & (fs & HS & _) & _).
+  clear - F2 T1 T2 TTL HS. induction F2 as [|d rd ds rds (D1 & D2 & D3 & D4 & _) _ IHF]; constructor; [|exact IHF].
+  unfold ordinary. rewrite D1, D2, D3, D4. unfold rs_fs. rewrite HS. auto.
+Qed.
+
+(* the OPT record written by add_opt (no padding) *)
+Lemma add_opt_chain o os ts r r' file :
+  zlen file = zlen (out r) -> TableSound file (tbl r) -> TblBelow r ->
+  add_opt None o 0 os ts r = Ok (false, r') ->
+  exists em wb owner',
+    out r' = out r ++ em /\ opts_wire (oopts o) = Ok wb /\ ci_equal owner' [[]] /\
+    RRreads (file ++ em) (length file) owner' tOPT (opayload o) (oflags o) [FRest] [PB wb] (length (file ++ em)) /\
+    TableSound (file ++ em) (tbl r') /\
+    cq r' = cq r /\ can r' = can r /\ cau r' = cau r /\ cad r' = cad r + 1 /\ rflags r' = rflags r.
+Proof.
+  intros Hz TS TB H. unfold add_opt in H. cbn [Z.eqb] in H.
+  apply bind_ok in H. destruct H as (rs & HR & H). unfold opt_rrset in HR.
+  apply bind_ok in HR. destruct HR as (wb & HW & HR). injection HR as <-.
+  rewrite add_rrset_tracked in H.
+  destruct (tracked_spec _ _ _ _ _ _ (ext_rrset_em _ _ _) TB H) as (Hs & em & new & HE & F & [(_ & Hfit & ->)|(Hb & _)]);
+    [|discriminate].
+  rewrite <- Hz in HE. unfold rrset_em, wclass in HE. cbn [rrds rdeleting rname rtype rclass rttl] in HE.
+  cbn [rrs_em] in HE. apply bind_ok in HE. destruct HE as ([e1 t1] & H1 & HE). cbn [bind fst snd] in HE.
+  injection HE as <- <-. rewrite app_nil_r in *.
+  assert (NO : name_ok [[]]) by (split; [apply Valid_root|reflexivity]).
+  assert (PO : Forall piece_ok [PB wb]) by (constructor; [exact Logic.I|constructor]).
+  assert (S0 : shaped [FRest] [PB wb]) by constructor.
+  destruct (rr_em_read [FRest] [[]] tOPT (opayload o) (oflags o) [PB wb] true true file (tbl r) e1 t1 TS NO PO S0 H1)
+    as (TS1 & R1 & R2 & R3 & owner' & rd' & c1 & rdl & CI1 & NO1 & CI2 & PO2 & S2 & A & B & C & E).
+  exists e1, wb, owner'. cbn [out tbl cq can cau cad rflags inc_count set_out set_rsec Z.eqb Pos.eqb].
+  split; [reflexivity|]. split; [exact HW|]. split; [exact CI1|]. split.
+  - assert (rd' = [PB wb]).
+    { inversion CI2 as [|x y l l' Hxy Hl]; subst. inversion Hl; subst. destruct x; cbn in Hxy; try contradiction. subst. reflexivity. }
+    subst rd'. exists c1, rdl. split; [exact A|]. split; [lia|]. split; [exact B|]. split; [exact C|]. exact E.
+  - split; [exact TS1|]. unfold rrset_count. cbn [rrds]. change (zlen [[PB wb]]) with 1. repeat split; lia.
+Qed.
+
+Lemma apply_d_keeps sec m d :
+  mopt (apply_d sec false m d) = mopt m /\ mtsig (apply_d sec false m d) = mtsig m /\
+  mid (apply_d sec false m d) = mid m /\ mflags (apply_d sec false m d) = mflags m /\
+  (forall s, 0 <= s <= 3 -> s <> sec -> get_sec (apply_d sec false m d) s = get_sec m s).
+Proof.
+  unfold apply_d. cbn [mopt mtsig mid mflags set_sec]. repeat split; try reflexivity.
+  intros s Hs Hne. unfold get_sec, set_sec. cbn [mq man mau mad].
+  assert (s = 0 \/ s = 1 \/ s = 2 \/ s = 3) as [Hx|[Hx|[Hx|Hx]]] by lia; subst s; cbn [Z.eqb Pos.eqb];
+    destruct (Z.eqb_spec sec 0); destruct (Z.eqb_spec sec 1); destruct (Z.eqb_spec sec 2); destruct (Z.eqb_spec sec 3);
+    try lia; reflexivity.
+Qed.
+
+Lemma fold_apply_d_keeps sec ds : forall m,
+  mopt (fold_left (apply_d sec false) ds m) = mopt m /\
+  mtsig (fold_left (apply_d sec false) ds m) = mtsig m /\
+  mid (fold_left (apply_d sec false) ds m) = mid m /\
+  mflags (fold_left (apply_d sec false) ds m) = mflags m /\
+  (forall s, 0 <= s <= 3 -> s <> sec -> get_sec (fold_left (apply_d sec false) ds m) s = get_sec m s).
+Proof.
+  induction ds as [|d ds IH]; intros m; cbn [fold_left]; [repeat split; reflexivity|].
+  destruct (IH (apply_d sec false m d)) as (A & B & C & D & E).
+  destruct (apply_d_keeps sec m d) as (A' & B' & C' & D' & E').
+  rewrite A, B, C, D, A', B', C', D'. repeat split; try reflexivity.
+  intros s Hs Hne. rewrite (E s Hs Hne). apply E'; assumption.
+Qed.
